@@ -53,7 +53,7 @@ def main():
             pkgdir = None
             for tok in re.findall(r"([\w./-]+/[\w.-]+_test\.go)", placement):
                 d = os.path.dirname(tok)
-                d = re.sub(r"^(/tmp/seed[23]?/C\d+/|\./)", "", d)
+                d = re.sub(r"^(/tmp/seed[0-9]?/C\d+/|\./)", "", d)
                 if os.path.isdir(os.path.join(wt, d)):
                     pkgdir = d
             if pkgdir is None:
